@@ -17,6 +17,7 @@ import (
 	"flag"
 	"fmt"
 	"os"
+	"sync"
 	"time"
 
 	"github.com/koron-go/z80"
@@ -35,6 +36,31 @@ type ScenInit struct {
 type Scenario struct {
 	Init ScenInit          `json:"init"`
 	Ops  []json.RawMessage `json:"ops"`
+	Twin bool              `json:"twin"` // run a never-rebuilt twin alongside and require bit-identical behaviour
+}
+
+// twinDiff compares the machine with its twin after a Step (everything, including
+// R and the undefined flag bits: determinism is about the code, not the spec).
+func twinDiff(a, b *Machine) string {
+	if a.CPU.States != b.CPU.States {
+		return fmt.Sprintf("States differ: %v vs %v", Regs(&a.CPU.States), Regs(&b.CPU.States))
+	}
+	if a.CPU.HALT != b.CPU.HALT {
+		return "HALT differs"
+	}
+	if fmt.Sprint(PendEnc(a.CPU.Interrupt)) != fmt.Sprint(PendEnc(b.CPU.Interrupt)) {
+		return "pending request differs"
+	}
+	if fmt.Sprint(a.Mem.Rd) != fmt.Sprint(b.Mem.Rd) || fmt.Sprint(a.Mem.Wr) != fmt.Sprint(b.Mem.Wr) {
+		return fmt.Sprintf("bus accesses differ: rd %v/%v wr %v/%v", a.Mem.Rd, b.Mem.Rd, a.Mem.Wr, b.Mem.Wr)
+	}
+	if a.IO != nil && fmt.Sprint(a.IO.Log) != fmt.Sprint(b.IO.Log) {
+		return "port log differs"
+	}
+	if a.H.N != b.H.N || a.H.I != b.H.I {
+		return "handler calls differ"
+	}
+	return ""
 }
 
 func toInt(v interface{}) int { return int(v.(float64)) }
@@ -108,6 +134,25 @@ func playScenario(sc *Scenario, w *bufio.Writer) {
 		return
 	}
 	m := NewMachine(is)
+	var tw *Machine
+	if sc.Twin {
+		tw = NewMachine(is)
+	}
+	twinStep := func() bool {
+		if tw == nil {
+			return true
+		}
+		tw.Mem.Reset()
+		if tw.IO != nil {
+			tw.IO.Reset()
+		}
+		tw.CPU.Step()
+		if d := twinDiff(m, tw); d != "" {
+			fmt.Fprintf(w, `{"e":"x","what":"twin","msg":%q}`+"\n", d)
+			return false
+		}
+		return true
+	}
 	EmitInit(w, is)
 	for _, raw := range sc.Ops {
 		var op []json.RawMessage
@@ -123,7 +168,7 @@ func playScenario(sc *Scenario, w *bufio.Writer) {
 				json.Unmarshal(op[1], &n)
 			}
 			for i := 0; i < n; i++ {
-				if !safeStep(m, w) {
+				if !safeStep(m, w) || !twinStep() {
 					return
 				}
 			}
@@ -137,19 +182,30 @@ func playScenario(sc *Scenario, w *bufio.Writer) {
 				cells = append(cells, [2]int{int(a), b})
 			}
 			EmitPoke(w, cells)
-			if !safeStep(m, w) {
+			if tw != nil {
+				for _, c := range cells {
+					tw.Mem.Inner.Set(uint16(c[0]), uint8(c[1]))
+				}
+			}
+			if !safeStep(m, w) || !twinStep() {
 				return
 			}
 		case "q":
 			var p []int
 			json.Unmarshal(op[1], &p)
 			m.CPU.Interrupt = PendDec(p)
+			if tw != nil {
+				tw.CPU.Interrupt = PendDec(p)
+			}
 			EmitRaise(w, p)
 		case "p":
 			var cells [][2]int
 			json.Unmarshal(op[1], &cells)
 			for _, c := range cells {
 				m.Mem.Inner.Set(uint16(c[0]), uint8(c[1]))
+				if tw != nil {
+					tw.Mem.Inner.Set(uint16(c[0]), uint8(c[1]))
+				}
 			}
 			EmitPoke(w, cells)
 		case "r":
@@ -160,6 +216,8 @@ func playScenario(sc *Scenario, w *bufio.Writer) {
 			if !m.RunAndEmit(w, &rs, 10*time.Second) {
 				return
 			}
+		case "w":
+			m.WholeAndEmit(w)
 		case "snap":
 			m.Rebuild()
 		default:
@@ -203,4 +261,53 @@ func cmdPlay(args []string) {
 	}
 	w.Flush()
 	fmt.Printf("play: %d scenarios\n", n)
+}
+
+// par: isolation (C10). The scenarios are dealt to N goroutines; each goroutine
+// owns its CPUs, memories and trace file. Built with -race by the driver.
+func cmdPar(args []string) {
+	fs := flag.NewFlagSet("par", flag.ExitOnError)
+	in := fs.String("in", "", "scenario ndjson")
+	out := fs.String("out", "", "output directory")
+	n := fs.Int("cpus", 8, "goroutines")
+	fs.Parse(args)
+	f, err := os.Open(*in)
+	if err != nil {
+		fmt.Println("MACHINERY-ERROR", err)
+		os.Exit(2)
+	}
+	defer f.Close()
+	sc := bufio.NewScanner(f)
+	sc.Buffer(make([]byte, 1<<20), 64<<20)
+	var all []*Scenario
+	for sc.Scan() {
+		var s Scenario
+		if err := json.Unmarshal(sc.Bytes(), &s); err != nil {
+			fmt.Println("MACHINERY-ERROR bad scenario:", err)
+			os.Exit(2)
+		}
+		all = append(all, &s)
+	}
+	var wg sync.WaitGroup
+	start := make(chan struct{})
+	for g := 0; g < *n; g++ {
+		wg.Add(1)
+		go func(g int) {
+			defer wg.Done()
+			o, err := os.Create(fmt.Sprintf("%s/trace_%02d.ndjson", *out, g))
+			if err != nil {
+				panic(err)
+			}
+			defer o.Close()
+			w := bufio.NewWriterSize(o, 1<<20)
+			defer w.Flush()
+			<-start
+			for i := g; i < len(all); i += *n {
+				playScenario(all[i], w)
+			}
+		}(g)
+	}
+	close(start)
+	wg.Wait()
+	fmt.Printf("par: %d scenarios on %d goroutines\n", len(all), *n)
 }
